@@ -144,6 +144,10 @@ def _source(case, base=0, n_rdm=None):
     vec = np.array([[_sent(r, i, j, base) for (i, j) in pairs] for r in range(n_rdm)])
     rdesc = {'rid': list(range(n_rdm)), 'rname': ['R%d' % (7 - r) for r in range(n_rdm)]}
     pdesc = {'cid': list(range(n_cond)), 'cname': ['c%d' % ((3 * c + 1) % 7) for c in range(n_cond)]}
+    if case.get('vector_desc'):
+        # descriptors whose entries are vectors (coordinates): a 2-D array / list of lists, one row per item
+        rdesc['rpos'] = [[float(r), float(-r)] for r in range(n_rdm)]
+        pdesc['xy'] = [[100.0 + c, 200.0 + c] for c in range(n_cond)]
     if case.get('rg') is not None and base == 0:
         rdesc['rg'] = list(case['rg'])
     if case.get('pg') is not None:
@@ -206,7 +210,7 @@ def _check_sample(src, sample, exp_rows, exp_conds):
         for k, v in sdesc.items():
             got = list(odesc[k])
             want = [v[i] for i in ids]
-            if len(got) != len(want) or any(not (g == w) for g, w in zip(got, want)):
+            if len(got) != len(want) or any(not np.array_equal(np.asarray(g), np.asarray(w)) for g, w in zip(got, want)):
                 return f"{kind}: descriptor '{k}' of the sample is {got}, the source items {ids} carry {want}"
     rid = [int(x) for x in sample.rdm_descriptors['rid']]
     cid = [int(x) for x in sample.pattern_descriptors['cid']]
@@ -592,6 +596,9 @@ def tier_c(run, thorough):
             for cont in ('list', 'array'):
                 case = dict(n_rdm=n_rdm, n_cond=n_cond, rg=None, pg=None, container=cont, default_args=True)
                 bd.check(orc_rdm, case, f'default-index,{cont}', function='bootstrap_sample_rdm')
+                if n_rdm >= 2:      # descriptors whose entries are vectors (coordinates per RDM / condition)
+                    case = dict(n_rdm=n_rdm, n_cond=n_cond, rg=None, pg=None, container=cont, default_args=True, vector_desc=True)
+                    bd.check(orc_rdm, case, f'default-index,{cont},vector-valued-descriptors', function='bootstrap_sample_rdm')
     bd.done()
     bds.append(bd)
 
@@ -616,6 +623,9 @@ def tier_c(run, thorough):
             case = dict(n_rdm=n_rdm, n_cond=n_cond, rg=None, pg=None, container=cont, default_args=True,
                         pred='model' if cont == 'array' else 'rdms')
             bd.check(orc_pattern, case, f'default-index,{cont}', function='bootstrap_sample_pattern')
+            if n_cond >= 3:
+                bd.check(orc_pattern, dict(case, vector_desc=True), f'default-index,{cont},vector-valued-descriptors',
+                         function='bootstrap_sample_pattern')
     bd.done()
     bds.append(bd)
 
